@@ -419,19 +419,22 @@ func (v *ADTSImpl) Decode(data []byte) (raw, left []byte, err error) {
 	// number_of_raw_data_blocks_in_frame 2 uimsbf
 	//number_of_raw_data_blocks_in_frame = abfv & 0x03
 	// adts_error_check(), 1.A.2.2.3 Error detection
+	// the frame_length covers the header and the error_check, which are 7 or 9 bytes.
+	nbHeader := uint16(7)
 	if protectionAbsent == 0 {
 		if len(p) <= 2 {
 			return nil, nil, errors.Errorf("requires 2+ but only %v bytes", len(p))
 		}
 		// crc_check 16 Rpchof
 		p = p[2:]
+		nbHeader += 2
 	}
 
 	v.asc.Object = profile.ToObjectType()
 	v.asc.Channels = Channels(channelConfiguration)
 	v.asc.SampleRate = SampleRateIndex(samplingFrequencyIndex)
 
-	nbRaw := int(frameLength - 7)
+	nbRaw := int(frameLength - nbHeader)
 	if len(p) < nbRaw {
 		return nil, nil, errors.Errorf("requires %v but only %v bytes", nbRaw, len(p))
 	}
